@@ -206,7 +206,7 @@ func (rt *richTables) richTermOf(d *V) (string, bool) {
 // column of the Equals matrix over that pool (all ordered pairs, every route against every route).
 func (ck *checker) richCases(cfg *lib.Config) lib.CorrFile {
 	cf := &lib.CasesFile{Imports: []string{"Model.Base", "Model.Keys", "Model.KeysRich", "Corr.CorrC07Rich"}, Typ: "rich_case",
-		Obligations: map[string]string{"rich_model": "c07_rich_mismatches tb rich_pool cases", "rich_texts": "c07_rich_text_mismatches tb", "rich_go": "c07_rich_go_mismatches tb"}}
+		Obligations: map[string]string{"rich_model": "c07_rich_mismatches tb rich_pool cases"}}
 	rt := &richTables{ts: map[string]string{}, sp: map[int64]string{}, go_: map[int]string{}}
 	items := ck.p.items
 	var idx []int
